@@ -13,7 +13,7 @@ from .common import norm
 from .cfg import cfg
 from .sym import sym, short, mentions, subexprs
 from . import util, cg, guards
-from .c04 import api_roots, takes_reader, FORMAT_CRATES
+from .c04 import api_roots, takes_reader, FORMAT_CRATES, shape_of
 
 GROW = (
     "alloc::vec::Vec::push",
@@ -167,10 +167,126 @@ def run_r2(ctx, rule):
         rule.bad("request_more/no-resize", "anchor missing: Vec::resize in request_more", kind="anchor-missing")
 
 
+# ---- R3 -----------------------------------------------------------------------------------------
+LF, CR = 1 << 10, 1 << 13
+# one item by the property's own definition ("largest single item (clause, line, comment)"): the AIGER comment
+# section is the rest of the file
+ITEM_SCANS = {
+    "flussab_aiger::token::remaining_file_content": "the AIGER comment section is a single item: the rest of the file",
+}
+
+
+def _prim_item_scan(eng, fn, bb, t, env, state, args, where, n):
+    return [(A.TOP, eng.havoc(env, args), state)]
+
+
+class LineAhead(A.Auto):
+    """(line ends looked at since the cursor last moved, the look-ahead answer at hand is already counted)"""
+
+    name = "line-ahead"
+    extra_prims = {k: _prim_item_scan for k in ITEM_SCANS}
+
+    def __init__(self):
+        self.viol = {}
+        self.eng = None
+        self.n_lf = 0
+
+    def initial(self):
+        return (0, False, None)
+
+    def key(self, state):
+        return (state[0], state[1], state[2] is not None)
+
+    @staticmethod
+    def _is_lf(av):
+        names = dict(av[2]) if av[0] == "e" else {}
+        p = names.get("Some")
+        if p is None or p[0] != "byte":
+            return False
+        m = p[1]
+        return bool(m & LF) and not (m & ~(LF | CR))
+
+    def event(self, state, ev, where):
+        count, counted, site = state
+        if ev[0] == "prim":
+            if ev[1] in ("advance",):
+                return (0, False, site)
+            if ev[1] == "look":
+                return (count, False, site)
+            return state
+        if ev[0] == "narrow" and ev[1] == "look":
+            if not self._is_lf(ev[2]):
+                return state
+            if len(ev) == 3:
+                return (count, True, site)  # the same, already narrowed answer replayed by a second look at the same offset
+            if counted:
+                return state
+            self.n_lf += 1
+            if count >= 1 and site is None:
+                fn = where[1]
+                chain = [short(self.eng.facts.inst[k]["def"]) for k in self.eng.stack] if self.eng else []
+                site = (short(norm(fn.id)), fn.loc(where[2]), " -> ".join(chain))
+            return (min(count + 1, 2), True, site)
+        return state
+
+
+def run_r3(ctx, rule):
+    """look-ahead stays within one line: the reader keeps everything from the cursor on, so a scan that passes a
+    second line end before the cursor moved keeps an unbounded number of (bounded) lines in memory"""
+    facts = ctx.facts
+    from .c08 import token_fns
+    from . import scan
+    roots = []
+    for f in token_fns(facts):
+        try:
+            roots.append((scan.root_key(facts, f.id), f))
+        except Exception:
+            pass
+    for r, fn in api_roots(facts):
+        if takes_reader(fn) and not norm(fn.id).endswith(WHOLE_FILE):
+            roots.append((r, fn))
+    n = 0
+    for r, fn in sorted(set(roots), key=lambda x: x[1].id):
+        nid = norm(fn.id)
+        if nid in ITEM_SCANS:
+            rule.ok("%s scans one item by definition" % short(nid), fn.loc(), ITEM_SCANS[nid])
+            continue
+        auto = LineAhead()
+        eng = A.Engine(facts, auto)
+        auto.eng = eng
+        try:
+            res = eng.summary(r, auto.initial(), tuple(A.TOP for _ in range(fn.argc)))
+        except (A.Recursion, A.Imprecise) as e:
+            rule.bad("%s/engine" % nid, "analysis failed: %r" % e, fn.loc(), kind="unmodelled-idiom")
+            continue
+        n += 1
+        # only returns after which streaming goes on matter: an error ends the parse (its message may quote a bounded
+        # stretch of input), so error shapes and functions that build the error value are not obliged
+        ret = fn.locals[0]
+        builds_error = "Error" in ret.get("s", "") and ret.get("adt") not in (A.RESULT, A.PARSED)
+        sites = []
+        for av, st in res:
+            if st[2] is None or builds_error:
+                continue
+            if ret.get("adt") in (A.RESULT, A.PARSED):
+                shapes = shape_of(av)
+                if all(sh.startswith("Err") or sh == "Res(Err)" for sh in shapes):
+                    continue
+            sites.append(st[2])
+        if sites:
+            where_fn, loc, chain = sorted(sites)[0]
+            rule.bad("%s/second-line-end-ahead" % nid, "%s can go on after looking at a second line end before the cursor moved past the first (in %s): lines pile up in the buffer" % (short(nid), where_fn), loc, path=["call chain: " + chain])
+        else:
+            rule.ok("%s never has more than one line end between the cursor and its look-ahead" % short(nid), fn.loc())
+    rule.note("roots", n)
+
+
 def run(ctx):
     r1 = ctx.rule("C10-R1", "every growth of a buffer that outlives the call is dominated by a clear() of the same buffer (streaming entry points)", floor=9)
     run_r1(ctx, r1)
     r2 = ctx.rule("C10-R2", "compaction in request_more is decided on live operands, moves the window to 0, and the buffer grows only on demand", floor=4)
     run_r2(ctx, r2)
+    r3 = ctx.rule("C10-R3", "look-ahead stays within one line: no second line end is looked at before the cursor moved past the first", floor=60)
+    run_r3(ctx, r3)
     ctx.assume("peak heap, allocator behaviour and the constants of the bound are not decided")
-    return "other", "necessary structural conditions for bounded streaming memory: buffer reset discipline and reachable, complete compaction", {}
+    return "other", "necessary structural conditions for bounded streaming memory: buffer reset discipline, reachable and complete compaction, look-ahead bounded by a line", {}
